@@ -93,7 +93,7 @@ func runC10(r *vhlib.Run) {
 							// runs out of input first
 							r.Violate("bytereader-eof-before-corruption-at-end", fmt.Sprintf("flate src=ByteReader: %s where every buffered source reports %s (violation within the last %d bytes of a %d-byte input)", o.Cls, base.Cls, int64(len(s.Data))-base.In, len(s.Data)), rp)
 						} else if o.Cls != base.Cls && c.Name == "bzip2" && o.Cls == "UEOF" && base.Cls == "Corrupted" &&
-							o.In == int64(len(s.Data)) && base.In >= int64(len(s.Data))-3 &&
+							base.In >= int64(len(s.Data))-3 &&
 							observe(c, append(append([]byte{}, s.Data...), 0, 0, 0), sk, sched, rng).Cls == "Corrupted" {
 							// (with three more bytes to hand out the same source reports Corrupted: the
 							// request only overshoots the end of the input)
@@ -103,6 +103,9 @@ func runC10(r *vhlib.Run) {
 							// continues with, and the bit reader asks for that many bits; a dead prefix
 							// within the last three bytes of the input then runs out of input first when the
 							// source hands out its data in small pieces
+							// (sources that hand out small pieces - one byte per Read under the Reader's own bufio, a
+							// Peek-capable source with little buffered - behave like the ReadByte-only one when the dead
+							// prefix is longer than what they have loaded; their InputOffset may lag behind the input)
 							r.Violate("bzip2-eof-before-dead-prefix-at-end", fmt.Sprintf("bzip2 src=%s: %s where bytes.Reader reports %s (violation within the last %d bytes of a %d-byte input)", sk.Name, o.Cls, base.Cls, int64(len(s.Data))-base.In, len(s.Data)), rp)
 						} else if o.Cls != base.Cls {
 							r.Violate("error-class-depends-on-driver", fmt.Sprintf("%s src=%s sched=%v: %s vs %s", c.Name, sk.Name, sched[0], o.Cls, base.Cls), rp)
